@@ -190,7 +190,7 @@ def Mux.init : Mux := ⟨[], [], false, none, none, false, 0, []⟩
 inductive Outcome
   | ok
   | err          -- onePacket returned an error: the loop ends, the connection is torn down
-  | blocks       -- the loop goroutine parks for ever in `ch.msg <- msg` (17th unsolicited message, nobody reads)
+  | blocks       -- the loop goroutine parks for ever in a blocking `ch.msg <- msg` on a full queue (proved unreachable)
   | panic
 deriving DecidableEq, Repr
 
@@ -308,9 +308,9 @@ def handleChanPacket (m : Mux) (id : Nat) (c : Chan) (p : Bytes) (t : Nat) : Opt
         let (o, c) := tryPushMsg c .reqFailure
         some (o, setChan m id (some c), [])
       | _ =>
-        -- `default: ch.msg <- msg`
-        let (o, c) := pushMsg c .other
-        some (o, setChan m id (some c), [])
+        -- `default:` a message decode() knows but that is not a channel message: protocol error
+        -- (repo commit 18df6c0; it used to be queued with a blocking `ch.msg <- msg`)
+        some (.err, m, [])
 
 /-- mux.onePacket on a packet returned by readPacket. `none` = outside the modelled fragment (driver: bad-op). -/
 def onePacket (m : Mux) (p : Bytes) : Option (Outcome × Mux × Evs) :=
@@ -482,12 +482,13 @@ def completions (m : Mux) : Mux × Evs :=
     | some k, some .failure => ({ m with globalCaller := none, globalPending := false, globalBuf := none }, [s!"G{k}=fail"])
     | some k, none => if m.ended then ({ m with globalCaller := none, globalPending := false }, [s!"G{k}=err"]) else (m, [])
     | none, _ => (m, [])
-  let step (acc : List (Option Chan) × Evs × List Nat) (oc : Option Chan) :=
-    match oc with
-    | none => (acc.1 ++ [none], acc.2.1, acc.2.2)
-    | some c => let (c', ev, got) := completeChan c
-                (acc.1 ++ [some c'], acc.2.1 ++ ev, if got then acc.2.2 ++ [c'.uid] else acc.2.2)
-  let (chans, ev1, got1) := m.chans.foldl step ([], [], [])
+  let chans := m.chans.map (Option.map (fun c => (completeChan c).1))
+  let ev1 := m.chans.flatMap (fun oc => match oc with
+    | some c => (completeChan c).2.1
+    | none => [])
+  let got1 := m.chans.filterMap (fun oc => match oc with
+    | some c => if (completeChan c).2.2 then some c.uid else none
+    | none => none)
   let stepD (acc : List Chan × Evs) (c : Chan) :=
     let (c', ev, _) := completeChan c
     (acc.1 ++ [c'], acc.2 ++ ev)
